@@ -1,6 +1,7 @@
 """Hostile / exhaustive-shape DSL texts for C11 (and reused by C16): (a) every grammar optional present/absent,
 (b) semantically ill-formed programs, (c) byte-level abuse.  Each text carries a label (its class)."""
 import itertools
+import copy
 import random
 
 from . import dslprint, faults, gen
@@ -138,6 +139,31 @@ def semantic_texts(seed, quick):
     for base in bases[:(6 if quick else 60)]:
         for fl in faults.inject_all(base):
             out.append(('fault/' + fl.cls, dslprint.layout(dslprint.tokens(fl.proto), 'pretty')[0]))
+    # MetaData faults at every entry of every matrix protocol that has a MetaData block (entries typing plain, repeated, padded fields
+    # and type-less length / checksum fields): alias to an undeclared entry, alias to an entry declared later, entry missing, alias to itself
+    def typeless(p):
+        return any(f.kind in ('len', 'cksum') and not f.typed for pk in p.packets for f in pk.fields)
+    withmeta = [p for p in gen.matrix_protos() if p.metadata]
+    for base in [p for i, p in enumerate(withmeta) if not quick or i % 2 == 0 or typeless(p)]:
+        for bi, (bname, ents) in enumerate(base.metadata):
+            for ei in range(len(ents)):
+                for kind in ('dangling', 'forward', 'removed', 'self'):
+                    p2 = copy.deepcopy(base)
+                    es = p2.metadata[bi][1]
+                    if kind == 'dangling':
+                        es[ei].base, es[ei].ref = None, 'NoSuchEntry'
+                    elif kind == 'forward':
+                        if ei + 1 >= len(es):
+                            continue
+                        es[ei].base, es[ei].ref = None, es[ei + 1].name
+                    elif kind == 'self':
+                        es[ei].base, es[ei].ref = None, es[ei].name
+                    else:
+                        del es[ei]
+                    try:
+                        out.append(('metafault/' + kind, dslprint.layout(dslprint.tokens(p2), 'pretty')[0]))
+                    except Exception:
+                        pass    # the printer needs the entry (e.g. to inline its type): not every variant is printable
     return out
 
 
